@@ -263,6 +263,13 @@ def setup(fam):
     h = Harness(fam["spec"], fam["regs"])
     for op in fam["pre"]:
         h.apply(op)
+    if fam.get("child"):
+        # a linked child (copy with linkback) that is already built: every rebuild of f also
+        # rebuilds it, so the fault can strike inside the child's rebuild
+        g = h.ov.copy(linkback=True)
+        g.rename("g", "g")
+        h.w.funcs["g"] = g
+        h.w.call("g", fam["corpus"][-1])
     return h
 
 
@@ -432,6 +439,14 @@ def execute(scen):
                                  op=op, probe_index=i, probe=probes[i], expected=ref[i],
                                  symptom=symptom(probes[i], ref[i]))
                 break
+            if fam.get("child"):
+                gp = [h.w.call("g", c) for c in corpus]
+                if gp != ref:
+                    i = next(i for i, (a, b) in enumerate(zip(gp, ref)) if a != b)
+                    violation = viol("recovery: after the change the linked child differs from a fresh build",
+                                     op=op, probe_index=i, probe=gp[i], expected=ref[i],
+                                     symptom=symptom(gp[i], ref[i]) + ":child")
+                    break
     digest = sim.digest ^ stable_hash([target_out, probes])
     return {"violation": violation, "digest": digest, "stats": stats, "fired": fired,
             "crash_fired": sim.crash_fired, "steps": nsteps}
@@ -451,6 +466,9 @@ def run_job(job):
         fam = fixed_family(job["name"], job["tkind"])
     else:
         fam = seeded_family(job["seed"], job["index"])
+    if job.get("child"):
+        fam["child"] = True
+        fam["label"] += ":child"
     if job.get("opcode"):
         fam["opcode"] = True  # crash points between the bytecodes of the publishing functions too
         fam["label"] += ":opcode"
@@ -519,6 +537,10 @@ def jobs(tier, seed):
                 for part in range(stride):
                     yield {"kind": "fixed", "name": name, "tkind": tk, "tier": tier,
                            "stride": stride, "part": part}
+        for tk in ("register", "invalid_rebuild", "invalidk_rebuild"):
+            for part in range(stride):
+                yield {"kind": "fixed", "name": "chain", "tkind": tk, "tier": tier,
+                       "stride": stride * 2, "part": part, "child": True}
         for index in range(40):
             yield {"kind": "seeded", "seed": seed, "index": index, "tier": tier,
                    "stride": 8, "part": (index + seed) % 8}
@@ -532,6 +554,11 @@ def jobs(tier, seed):
             for part in range(stride):
                 yield {"kind": "fixed", "name": "chain", "tkind": tk, "tier": tier,
                        "stride": stride, "part": part, "opcode": True}
+        for tk in ("register", "unregister", "replace", "invalid_rebuild", "invalidk_rebuild",
+                   "miss_call"):
+            for part in range(stride):
+                yield {"kind": "fixed", "name": "chain", "tkind": tk, "tier": tier,
+                       "stride": stride, "part": part, "child": True}
         index = 0
         while True:
             for part in range(4):
